@@ -48,7 +48,7 @@ BadVals(f, set) == IF set = "rm" THEN Bad(f, set) \ {NoneV} ELSE Bad(f, set)
 
 Overrides(f) == RmVals(f) \cup (IF Rich THEN {Unset} ELSE {})
 
-NoOp == [op |-> [k |-> "init", set |-> "", n |-> 0, a |-> Unset], res |-> "ok", used |-> ""]
+NoOp == [op |-> [k |-> "init", set |-> "", n |-> 0, a |-> Unset], res |-> "ok", used |-> "", um |-> ""]
 
 Init ==
   /\ fam \in {"kitty", "iterm2"}
@@ -59,7 +59,8 @@ Init ==
 Do(op) ==
   /\ S' = Apply(Tree, fam, S, op)
   /\ out' = [op |-> op, res |-> Res(Tree, fam, op),
-             used |-> IF op.k = "render" THEN FrameOf(Used(Tree, S, op)) ELSE ""]
+             used |-> IF op.k = "render" THEN FrameOf(Used(Tree, S, op)) ELSE "",
+             um |-> IF op.k = "render" THEN Used(Tree, S, op) ELSE ""]
   /\ UNCHANGED <<fam, cur>>
 
 Writable(n) == ~(ClassOnly(cur) /\ ~IsClass(Tree, n))
@@ -151,8 +152,8 @@ RenderChangesNothing == [][out'.op.k = "render" => S' = S /\ out'.res = "ok"]_va
 \* the method used by a render = per-call override, else the effective one
 UsedMethodStep ==
   out'.op.k = "render" =>
-    out'.used = FrameOf(IF out'.op.a # Unset THEN out'.op.a.s
-                        ELSE Eff(Tree, S, "rm", out'.op.n).s)
+    LET m == IF out'.op.a # Unset THEN out'.op.a.s ELSE Eff(Tree, S, "rm", out'.op.n).s IN
+      out'.used = FrameOf(m) /\ out'.um = m
 UsedMethodRule == [][UsedMethodStep]_vars
 
 \* --- edge dump (spec -> code replay) ---------------------------------------
@@ -161,12 +162,27 @@ Key(s) == [fam |-> fam, cur |-> cur, ov |-> [n \in 1..N |-> Show(s[cur][n])]]
 
 \* what the real code must show after the operation, at every node
 Exp(s) == [eff |-> [n \in 1..N |-> Show(ObsEff(Tree, fam, s, cur, n))],
+           m |-> [n \in 1..N |-> Eff(Tree, s, "rm", n).s],   \* effective method: dictates the data size
            gate |-> [n \in 1..N |-> Gate(Tree, s, n)]]
 
 OpOut(o, s2) == [k |-> o.op.k, set |-> o.op.set, n |-> o.op.n, a |-> Show(o.op.a),
-                 res |-> o.res, used |-> o.used, exp |-> Exp(s2)]
+                 res |-> o.res, used |-> o.used, um |-> o.um, exp |-> Exp(s2)]
 
 Dump == PrintT(<<"EDGE", ToJson([from |-> Key(S), op |-> OpOut(out', S'), to |-> Key(S')])>>)
+
+\* geometries the replay renders with: sources smaller / about equal / larger than the rendered
+\* pixel size (cell 2x4); the table tells the replay the data size each USED method dictates
+Geo(rw, rh, ow, oh) == [cw |-> 2, ch |-> 4, rw |-> rw, rh |-> rh, ow |-> ow, oh |-> oh]
+GeoSeq == <<Geo(2, 2, 3, 5), Geo(3, 3, 10, 7), Geo(2, 3, 16, 9), Geo(3, 2, 1, 2),
+            Geo(1, 2, 2, 8), Geo(2, 2, 40, 40)>>
+ASSUME \A i \in 1..Len(GeoSeq) : WellFormedGeo(GeoSeq[i])
+RECURSIVE SetSeq(_)
+SetSeq(Q) == IF Q = {} THEN <<>> ELSE LET q == CHOOSE q \in Q : TRUE IN <<q>> \o SetSeq(Q \ {q})
+GeoTable == [i \in 1..Len(GeoSeq) |->
+               [g |-> GeoSeq[i],
+                px |-> [lines |-> SetSeq(PxSet(GeoSeq[i], "lines")),
+                        whole |-> SetSeq(PxSet(GeoSeq[i], "whole")),
+                        anim |-> SetSeq(PxSet(GeoSeq[i], "anim"))]]]
 
 \* printed once per initial state: the initial node, the tree and the defaults
 InitDump ==
@@ -175,5 +191,5 @@ InitDump ==
     /\ PrintT(<<"DEFAULTS", ToJson([fam |-> fam, par |-> Tree.par, nc |-> Tree.nc,
                  eff |-> [i \in 1..Len(SettingSeq) |->
                             [set |-> SettingSeq[i], v |-> Show(ObsDefault(fam, SettingSeq[i]))]],
-                 gate |-> "shut"])>>)
+                 gate |-> "shut", geos |-> GeoTable])>>)
 =============================================================================
